@@ -151,6 +151,8 @@ Definition trampoline_module : string := {q(pr['trampoline_module'])}.
 Definition trampoline_module_from_source : string := {q(tramp_mod_src)}.
 Definition trampoline_accepts : list string := {strs(pr['trampoline_accepts'])}.
 Definition trampoline_rejects_wrong_sig : list string := {strs(pr['trampoline_rejects_wrong_sig'])}.
+(* the same wrong signature as a SECOND import of the name, after a canonical first one *)
+Definition trampoline_rejects_wrong_sig_dup : list string := {strs(pr['trampoline_rejects_wrong_sig_dup'])}.
 (* `_<public name>` imports the tool lets through unchanged *)
 Definition trampoline_accepts_lowlevel : list string := {strs(pr['trampoline_accepts_lowlevel'])}.
 Definition trampoline_rejects_unknown : bool := {b(pr['unknown_rejected'])}.
